@@ -57,7 +57,7 @@ def findSite (key : String) (idx : Nat) : Option RaiseSite :=
   raiseSites.find? fun s => s.key == key && s.idx == idx
 
 def reachedOfSite (s : RaiseSite) (nested : Option Modes.Mode) : Option Reached :=
-  (kindOf s).map fun k => ⟨k, s.guard, s.cls, nested⟩
+  (kindOf (policyOf recursionGuard) s).map fun k => ⟨k, s.guard, s.cls, nested⟩
 
 def nestedOf (j : Json) : Option Modes.Mode :=
   match j with
@@ -105,7 +105,7 @@ def handle (j : Json) : Except String Json := do
     match findSite key idx with
     | none => return Json.mkObj [("known", false)]
     | some s =>
-      match kindOf s with
+      match kindOf (policyOf recursionGuard) s with
       | none => return Json.mkObj [("known", true), ("kind", Json.null)]
       | some k => return Json.mkObj [("known", true), ("kind", kindStr k), ("fire", fireStr (fire k s.guard m)),
                                      ("resourceOrStop", k.resourceOrStop), ("reachable", s.reachable)]
